@@ -1,9 +1,9 @@
 #!/bin/bash
 # runs every stored behaviour-preserving change against all twenty quick checks; one line per (change, check) that is not clean
-cd /verif
+cd "$(dirname "$0")/.."
 for d in benign/*/; do
   id=$(basename $d)
-  out=$(tools/benigntest.sh /verif/benign/$id/patch.diff 2>&1 | grep -v WARNING)
+  out=$(tools/benigntest.sh "$PWD/benign/$id/patch.diff" 2>&1 | grep -v WARNING)
   bad=$(echo "$out" | grep "^== " | grep -v "exit=0 0 violations")
   echo "$id: $(echo "$out" | grep -c '^== .*exit=0 0 violations') of 20 checks clean$( [ -n "$bad" ] && echo; echo "$bad" | cut -c1-200)"
 done
